@@ -178,6 +178,10 @@ def one_run(ctx, c, family="opt"):
     g = ctx.rng(family, c)
     if family == "opt":
         spec, enc = ALGOS[c % len(ALGOS)]
+    elif family == "live":   # three consecutive problems on ONE optimiser object: A, B (same dimensions, other candidates/data), C (other dimensions)
+        spec, enc = ALGOS[(c // 3) % len(ALGOS)]
+        if c % 3 == 0:
+            LIVE.pop(short(spec), None)
     else:   # cheap deterministic optimisers get their own, larger family
         spec, enc = [(a, "Subset") for a in SUBSET_ALGOS[:3]][c % 3]
     name = short(spec)
@@ -186,7 +190,9 @@ def one_run(ctx, c, family="opt"):
     nobj = 1 if single else int(g.choice([2, 2, 3]))
     n = int(g.integers(2, 13)); k = int(g.integers(1, n + 1))
     reuse = name in LIVE and g.random() < 0.5
-    if reuse and g.random() < 0.7:
+    if family == "live":
+        reuse = name in LIVE and c % 3 != 0
+    if reuse and (g.random() < 0.7 if family != "live" else c % 3 == 1):
         n, k = LIVE[name][2]           # same dimensions as the previous problem of this live optimiser, other candidates/data
     elif enc == "Subset" and g.random() < 0.3:
         k = n if g.random() < 0.5 else max(1, n - 1)      # candidate-set size == / just above subset size
@@ -313,7 +319,15 @@ def run_shard(ctx):
         one_run(ctx, c)
     for c in ctx.case_ids(600, 30000):
         one_run(ctx, c, "cheap")
+    # live-object histories; case ids are handed out in whole triples so that A, B, C of one history run in the same shard
+    for t_ in ctx.case_ids(16 * 4, 16 * 16 * 6):
+        for j_ in range(3):
+            one_run(ctx, 3 * t_ + j_, "live")
 
 
 def replay(ctx, coords):
-    one_run(ctx, int(coords[0]), coords[1])
+    c = int(coords[0])
+    if coords[1] == "live":      # replay the history up to and including the failing problem
+        for j_ in range(3 * (c // 3), c):
+            one_run(ctx, j_, "live")
+    one_run(ctx, c, coords[1])
